@@ -434,7 +434,30 @@ fn replay(a: &HashMap<String, String>) -> i32 {
         let mut diffs: Vec<String> = Vec::new();
         let observed: Value;
         if ev == "value" {
+            let want_calls = v.get("calls").and_then(|c| c.as_array()).map(|a| !a.is_empty()).unwrap_or(false);
+            mk::RECORD.with(|r| *r.borrow_mut() = want_calls);
             let o = observe_value(&w, sch, max, &src, &cids, &unames);
+            mk::RECORD.with(|r| *r.borrow_mut() = false);
+            if want_calls && o.ok {
+                // the invocations of the called function: one argument tuple each, in order (property C03)
+                let sem = v["callfn"].as_str().unwrap_or("");
+                let sem = if ["idb", "idi", "ida", "fld_only", "bb", "idip"].contains(&sem) { "id" } else { sem };
+                for (i, run) in o.runs.iter().enumerate() {
+                    let got: Vec<&Vec<Val>> = run.calls.iter().filter(|(s, _)| s == sem).map(|(_, a)| a).collect();
+                    let exp: Vec<Vec<Val>> = serde_json::from_value(v["calls"][i].clone()).unwrap_or_default();
+                    let same = got.len() == exp.len() && got.iter().zip(exp.iter()).all(|(g, e)| {
+                        g.len() == e.len() && g.iter().zip(e.iter()).all(|(x, y)| match (x, y) {
+                            // an absence: the model's untyped Nil stands for "absent, whatever the tag"
+                            (Val::Nil { ty: tx }, Val::Nil { ty: ty_ }) => tx.is_none() || ty_.is_none() || tx == ty_,
+                            _ => x == y,
+                        })
+                    });
+                    if !same {
+                        diffs.push(format!("invocations of {} on ctx {}: expected {} observed {}", sem, run.ctx,
+                                           serde_json::to_string(&exp).unwrap(), serde_json::to_string(&got).unwrap()));
+                    }
+                }
+            }
             observed = serde_json::to_value(&o).unwrap();
         } else {
             let o = observe_filter(&w, sch, max, &src, &cids, &unames);
